@@ -6,30 +6,27 @@ fn opts(ts: i64) -> PutOptions {
     o.auto_tag = false; o.extract_dates = false; o.extract_triplets = false; o.extraction_budget_ms = 0; o.instant_index = false;
     o
 }
-fn verify(p: &std::path::Path, what: &str) {
-    let r = Memvid::verify(p, true).unwrap();
-    println!("{what}: {:?} {:?}", r.overall_status, r.checks.iter().map(|c| format!("{}={:?} {:?}", c.name, c.status, c.details)).collect::<Vec<_>>());
-}
 fn main() {
     let dir = vh::util::Scratch::new("probe");
     let p = dir.path("a.mv2");
     let mut m = Memvid::create(&p).unwrap();
-    m.put_bytes_with_options(b"kra1zto zq000x hello world", opts(1)).unwrap();
+    let mut o = opts(1); o.uri = Some("mv2://x/a".into());
+    m.put_bytes_with_options(b"kra1zto zq000x hello world", o).unwrap();
     m.commit().unwrap();
+    let mut o = PutOptions::default(); o.title = Some("t1".into());
+    println!("upd1 {:?}", m.update_frame(0, None, o, None));
+    let mut o = PutOptions::default(); o.title = Some("t2".into());
+    println!("upd2 {:?}", m.update_frame(0, None, o, None));
+    println!("commit {:?}", m.commit());
+    for i in 0..m.frame_count() as u64 { let f = m.frame_by_id(i).unwrap(); println!("{} {:?} title={:?} sup={:?} by={:?} off={} len={}", f.id, f.status, f.title, f.supersedes, f.superseded_by, f.payload_offset, f.payload_length); }
     drop(m);
-    verify(&p, "after put+commit+drop");
-    let mut m = Memvid::open(&p).unwrap();
-    m.put_bytes_with_options(b"second doc", opts(2)).unwrap();
-    m.commit().unwrap();
-    m.delete_frame(0).unwrap();
-    m.commit().unwrap();
+    let m = Memvid::open(&p);
+    println!("open: {:?}", m.as_ref().map(|m| m.frame_count()).map_err(|e| e.to_string()));
+    let mut m = m.unwrap();
+    println!("by uri: {:?}", m.frame_by_uri("mv2://x/a").map(|f| f.id));
+    println!("{:?}", m.frame_canonical_payload(1).map(|b| b.len()));
+    println!("{:?}", m.frame_canonical_payload(2).map(|b| b.len()));
+    println!("vacuum {:?}", m.vacuum());
     drop(m);
-    verify(&p, "after reopen+put+commit+delete+commit+drop");
-    let mut m = Memvid::open(&p).unwrap();
-    m.vacuum().unwrap();
-    drop(m);
-    verify(&p, "after vacuum+drop");
-    let m = Memvid::open(&p).unwrap();
-    drop(m);
-    verify(&p, "after open+drop");
+    println!("open: {:?}", Memvid::open(&p).map(|m| m.frame_count()).map_err(|e| e.to_string()));
 }
